@@ -335,9 +335,63 @@ def run(chk):
     fit = method(chk, dm, "_fit")
     csc = method(chk, dm, "_combination_selection_criteria")
     r3.require(f"self._get_error_metrics('{UNSPLIT}')" in unparse(fit.node), f"{fit.key}|baseline-is-unsplit", fit.where(), "wRMSE_base must be the error of the unsplit model")
-    r3.require(f"combination == '{UNSPLIT}'" in unparse(csc.node) and "loss = wRMSE / self.wRMSE_base" in unparse(csc.node), f"{csc.key}|relative-to-unsplit", csc.where(),
-               "the criterion's loss must be relative to the unsplit model's wRMSE")
-    r3.require("num_coeffs = len(components)" in unparse(csc.node), f"{csc.key}|penalty-counts-components", csc.where(), "the split penalty must count the components of the candidate")
+    # _combination_selection_criteria interpreted with selection_criteria as a recorder: what is handed over in which role
+    from engine.absint import Term as _T
+    from engine.pyinterp import StubCall, InterpRaised as _IR
+
+    class _S(_T):
+        __hash__ = _T.__hash__
+        def __eq__(self, o): return isinstance(o, _T) and o.key() == self.key()
+        def __truediv__(self, o): return _S("div", self, o)
+        def __rtruediv__(self, o): return _S("div", o, self)
+        def __add__(self, o): return _S("add", *sorted([self, o], key=lambda t: t.key() if isinstance(t, _T) else repr(t)))
+        __radd__ = __add__
+        def lower(self): return self
+
+    class _NPs(Stub):
+        @staticmethod
+        def sum(xs, **k):
+            xs = list(xs)
+            return _S("sum", *sorted(xs, key=lambda t: t.key() if isinstance(t, _T) else repr(t))) if len(xs) != 1 else xs[0]
+
+    for cand in (UNSPLIT, "wd-su__we-su__fw-sh_wi", "fw-su__fw-sh_wi"):
+        comps = cand.split("__")
+        rec = []
+
+        def _sel(*a, **k):
+            rec.append((a, k))
+            return _S("CRITERION")
+        me = NS(fit_components={c: NS(N=_S(f"N[{c}]"), TSS=_S(f"TSS[{c}]"), num_coeffs=_S(f"k[{c}]")) for c in comps}, wRMSE_base=_S("wRMSE_base"),
+                settings=NS(split_selection=NS(criteria=_S("criteria"), penalty_multiplier=_S("penalty_multiplier"), penalty_power=_S("penalty_power"))),
+                _get_error_metrics=StubCall(lambda c: (_S(f"wRMSE[{c}]"), _S(f"other[{c}]"))), df_penalties={cand: _S("df_penalty")})
+        it = Interp()
+        env = ModuleEnv(chk.repo, csc.module, it, {"np": _NPs(), "numpy": _NPs(), "selection_criteria": StubCall(_sel)})
+        key = f"{csc.key}|criterion-inputs|{cand}"
+        try:
+            res = Function(csc.node, env, it)(me, cand)
+        except _IR as e:
+            r3.require(False, key, csc.where(), f"_combination_selection_criteria raises {e.exc_name} for `{cand}`")
+            continue
+        except Unsupported as e:
+            raise AnalysisError(f"{csc.key}: outside the interpreted subset: {e}")
+        if len(rec) != 1 or not (isinstance(res, _T) and res.key() == "CRITERION"):
+            r3.require(False, key, csc.where(), f"_combination_selection_criteria must return selection_criteria(...) of the candidate; called it {len(rec)} time(s)")
+            continue
+        a, k = rec[0]
+        names = ["loss", "TSS", "N", "num_coeffs", "model_selection_criteria", "penalty_multiplier", "penalty_power"]
+        got = dict(zip(names, a))
+        got.update(k)
+        kk = {n: (v.key() if isinstance(v, _T) else repr(v)) for n, v in got.items()}
+        w_err = "wRMSE_base" if cand == UNSPLIT else f"wRMSE[{cand}]"
+        def _sum(what): return f"{what}[{comps[0]}]" if len(comps) == 1 else "sum(" + ", ".join(sorted(f"{what}[{c}]" for c in comps)) + ")"
+        want = {"loss": f"div({w_err}, wRMSE_base)", "TSS": _sum("TSS"), "N": _sum("N"), "num_coeffs": repr(len(comps)), "model_selection_criteria": "criteria",
+                "penalty_multiplier": "penalty_multiplier", "penalty_power": "penalty_power"}
+        if cand == UNSPLIT and kk.get("loss") == "div(wRMSE[fw-su_sh_wi], wRMSE_base)":
+            want["loss"] = kk["loss"]   # recomputing the unsplit error is the same number
+        bad = {n: (kk.get(n), w) for n, w in want.items() if kk.get(n) != w}
+        r3.require(not bad, key, csc.where(),
+                   f"_combination_selection_criteria(`{cand}`): the criterion must be computed from the candidate's error relative to the unsplit model's, its components' N and TSS, and one penalty "
+                   f"unit per component; differs in {bad}", sample={"candidate": cand, "arguments": kk})
 
     # ------------------------------------------------------------------ R13.5 arg-min by interpretation
     bc = method(chk, dm, "_best_combination")
